@@ -28,7 +28,7 @@ import (
 
 type atomicCase struct {
 	ID     string `json:"id"`
-	Via    string `json:"via"`    // manager-transact | manager-write | manager-delete | rest-patch | grpc-transact
+	Via    string `json:"via"`    // manager-transact | manager-write | manager-delete | rest-patch | grpc-transact | rest-delete-query | grpc-delete-query
 	NIns   int    `json:"nins"`   // relationships to insert
 	NDel   int    `json:"ndel"`   // relationships to delete (present before)
 	BadIns int    `json:"badins"` // 0 = none, else 1-based position of an invalid element among the inserts
@@ -184,6 +184,13 @@ func (e *storeEnv) execAtomic(c atomicCase, req atomicReq) (ok bool, statusS str
 		}
 		_, err := e.rt.TransactRelationTuples(ctx, r)
 		return err == nil, status.Code(err).String()
+	case "rest-delete-query":
+		// delete by query: everything in n1 with relation r (every relationship of these cases)
+		code, _ := e.do("A", e.wr, "DELETE", "/admin/relation-tuples?namespace=n1&relation=r", nil)
+		return code == 204, fmt.Sprint(code)
+	case "grpc-delete-query":
+		_, err := e.rt.DeleteRelationTuples(ctx, &rts.DeleteRelationTuplesRequest{RelationQuery: &rts.RelationQuery{Namespace: ptr("n1"), Relation: ptr("r")}})
+		return err == nil, status.Code(err).String()
 	}
 	e.t.Fatalf("unknown via %q", c.Via)
 	return
@@ -274,6 +281,9 @@ func famAtomic(t *testing.T) {
 						delete(want, tupleLine(x))
 					}
 				}
+			}
+			if strings.HasSuffix(c.Via, "-delete-query") {
+				want = map[string]int{} // the query matches every relationship of the case
 			}
 			var wantLines []string
 			for l, n := range want {
